@@ -477,6 +477,10 @@ def relabel(spec, perm) -> dict:
 def pred_roughness(spec, perm, shift, lam, order) -> tuple | None:
     from topsearch.analysis.roughness import roughness_metric
     n = len(spec["E"])
+    if sorted(perm) != list(range(n)):
+        perm = list(range(n))
+    if sorted(order) != list(range(len(spec["ts"]))):
+        order = list(range(len(spec["ts"])))
     r = float(roughness_metric(build(spec)))
     rep = {"pred": "roughness", "spec": spec, "perm": perm, "shift": shift, "lam": lam, "order": order}
     scale = max(1.0, abs(r), max((abs(t[2]) for t in spec["ts"]), default=0.0))
@@ -533,6 +537,37 @@ CORPUS = [
 ]
 
 
+def shrink_spec(spec: dict, fails) -> dict:
+    """greedy minimisation of a failing network: drop transition states, then unused
+    highest-numbered minima, while `fails(spec)` keeps returning True"""
+    def ok(s2):
+        try:
+            return bool(fails(s2))
+        except Exception:      # noqa: BLE001 - a shrunk input outside the call's domain is not a witness
+            return False
+    changed = True
+    while changed:
+        changed = False
+        for q in range(len(spec["ts"])):
+            s2 = {**spec, "ts": spec["ts"][:q] + spec["ts"][q + 1:]}
+            if ok(s2):
+                spec, changed = s2, True
+                break
+        else:
+            n = len(spec["E"])
+            if n > 1 and all(n - 1 not in (t[0], t[1]) for t in spec["ts"]):
+                s2 = {"E": spec["E"][:-1], "coords": spec["coords"][:-1], "ts": spec["ts"]}
+                if ok(s2):
+                    spec, changed = s2, True
+    return spec
+
+
+def shrunk(data: dict, r: tuple, runner) -> tuple:
+    """re-run the failing predicate on a minimised network (same failure key)"""
+    spec = shrink_spec(data["spec"], lambda s2: (runner({**data, "spec": s2}) or (None,))[0] == r[0])
+    return runner({**data, "spec": spec}) or r
+
+
 def run_pred(data: dict, stats=None) -> tuple | None:
     kind = data["pred"]
     spec = data["spec"]
@@ -585,6 +620,8 @@ def predicates(ctx: Ctx) -> None:
             r = run_pred(d, ctx.stats)
             ctx.stats.case({"stream": "predicate", "kind": d["pred"], "n": nn, "ts": len(spec["ts"])}, True)
             if r:
+                if not any(f.key == r[0] for f in ctx.failures):
+                    r = shrunk(d, r, run_pred)
                 ctx.fail(*r)
 
 
